@@ -79,6 +79,18 @@ class C13(P.Property):
                         for when in ("before", "after"):
                             plans.append(self.base_plan(scheme, buf, [{"role": role, "when": when, "k": k}]))
         if tier == "thorough":
+            # the single-crash enumeration for the other six schemes as well (default buffer size)
+            for scheme in [x for x in fe.SCHEMES if x not in ENUM_SCHEMES]:
+                key = (scheme, 8192)
+                if key not in self._baseline:
+                    res = self.execute(self.base_plan(scheme, 8192, []))
+                    self._baseline[key] = {} if res.violations else dict(res.extra["role_k"])
+                    if res.violations:
+                        plans.append(self.base_plan(scheme, 8192, []))
+                for role, n in sorted(self._baseline[key].items()):
+                    for k in range(n):
+                        for when in ("before", "after"):
+                            plans.append(self.base_plan(scheme, 8192, [{"role": role, "when": when, "k": k}]))
             plans.extend(self._enumerate_pairs("CJJ14.PiBas", 8192))
             plans.extend(self._enumerate_big())
         return plans
